@@ -15,6 +15,7 @@ import (
 	"time"
 
 	"verif/simfw"
+	_ "verif/sims/loader"
 	_ "verif/sims/mw"
 	_ "verif/sims/stream"
 )
